@@ -322,8 +322,15 @@ func checkC11RealMulti(cs *c11RealCase, r *Rec) error {
 				break // text appended to a child outside its blocks is ignored anyway
 			}
 			src := f.sourceWith(func(ref string) string { return write(vc.Root, ref) }) + "~v2"
-			if err := os.WriteFile(fmt.Sprintf("%s/L%d%s", top, i, vc.Root), []byte(src), 0o644); err != nil {
+			path := fmt.Sprintf("%s/L%d%s", top, i, vc.Root)
+			st, _ := os.Stat(path)
+			if err := os.WriteFile(path, []byte(src), 0o644); err != nil {
 				return skipf("cannot rewrite: %v", err)
+			}
+			if st != nil && len(src)%2 == 0 {
+				// (a change that keeps the file's time stamp - cp -p, rsync -t, a coarse clock: what
+				// counts is the content)
+				_ = os.Chtimes(path, st.ModTime(), st.ModTime())
 			}
 			same, _ := set.FromCache(entry)
 			if same != tpl {
